@@ -1178,16 +1178,24 @@ class Pulse(Function):
         self.first_pulse = UnaryOperator(first_pulse)
         self.interval = UnaryOperator(interval)
 
+    def _single_term(self, time):
+        # the pulse belongs to the grid point t with first_pulse in [t - dt/2, t + dt/2): exactly one grid point, also for a
+        # pulse time midway between two grid points (it then goes to the later one)
+        return "(({volume}/{dt}) if ((({time})-({first_pulse})) > -{dt}*0.499999999 and (({time})-({first_pulse})) <= {dt}*0.500000001) else 0.0)".format(volume=self.volume.term(time), dt=self.model.dt, time=time, first_pulse=self.first_pulse.term(time))
+
+    def _interval_term(self, time):
+        # distance of the time from the nearest pulse time at or after t - dt/2 (ceil, not round: round() goes to the
+        # even neighbour for pulse times midway between two grid points, which would drop every other pulse)
+        distance = "((({time})-({first_pulse})) - ({interval})*math.ceil(((({time})-({first_pulse})) - {dt}*0.500000001)/({interval})))"
+        return ("(({volume}/{dt}) if ((({time})-({first_pulse})) > -{dt}*0.499999999 and " + distance + " > -{dt}*0.499999999 and " + distance + " <= {dt}*0.500000001) else 0.0)").format(volume=self.volume.term(time), dt=self.model.dt, time=time, first_pulse=self.first_pulse.term(time), interval=self.interval.term(time))
+
     def term(self, time="t"):
-        if self.interval.element == 0.0:
-            # the pulse belongs to the grid point t with first_pulse in [t - dt/2, t + dt/2): exactly one grid point, also for a
-            # pulse time midway between two grid points (it then goes to the later one)
-            return "(({volume}/{dt}) if ((({time})-({first_pulse})) > -{dt}*0.499999999 and (({time})-({first_pulse})) <= {dt}*0.500000001) else 0.0)".format(volume=self.volume.term(time), dt=self.model.dt, time=time, first_pulse=self.first_pulse.term(time))
-        else:
-            # distance of the time from the nearest pulse time at or after t - dt/2 (ceil, not round: round() goes to the
-            # even neighbour for pulse times midway between two grid points, which would drop every other pulse)
-            distance = "((({time})-({first_pulse})) - ({interval})*math.ceil(((({time})-({first_pulse})) - {dt}*0.500000001)/({interval})))"
-            return ("(({volume}/{dt}) if ((({time})-({first_pulse})) > -{dt}*0.499999999 and " + distance + " > -{dt}*0.499999999 and " + distance + " <= {dt}*0.500000001) else 0.0)").format(volume=self.volume.term(time), dt=self.model.dt, time=time, first_pulse=self.first_pulse.term(time), interval=self.interval.term(time))
+        interval = self.interval.element
+        if isinstance(interval, (int, float)):
+            return self._single_term(time) if interval == 0.0 else self._interval_term(time)
+        # the interval is a model element (sd.pulse accepts a Constant): `element == 0.0` would build a (truthy)
+        # ComparisonOperator, so whether it is zero is decided when the equation is evaluated
+        return "({} if ({})==0.0 else {})".format(self._single_term(time), self.interval.term(time), self._interval_term(time))
 
 
 class Trend(Function):
